@@ -329,9 +329,45 @@ Qed.
 Theorem error_after_flush_l : forall thr psz inp,
   decode fixed inp = None ->
   exists groups rest,
-    decode_chunked thr psz fixed inp = (map chunk_of_group groups, true) /    fst (decode_stream fixed inp) = (List.concat groups ++ rest)%list /    Forall (fun gr => gsize psz gr > thr) groups.
+    decode_chunked thr psz fixed inp = (map chunk_of_group groups, true) /\
+    fst (decode_stream fixed inp) = (List.concat groups ++ rest)%list /\
+    Forall (fun gr => gsize psz gr > thr) groups.
 Proof.
   intros thr psz inp Hd. pose proof (decode_stream_none _ _ Hd) as He.
   unfold decode_chunked. destruct (decode_stream fixed inp) as [rows e]. cbn [snd fst] in *. subst e.
   apply responses_error.
 Qed.
+
+(* ------------------------------------------------------------------ examples: the hypotheses are met by non-trivial values *)
+(* the two-span requests of SpansProofs under a 300-byte threshold: a flush after every span (OTLP: the final response is
+   empty; Zipkin: the second span stays below the threshold and travels in the final response) *)
+Example ex_chunked_otlp :
+  decode fixed ex_otlp <> None /\ pushed_of ex_otlp <> None /\
+  map (fun k => (List.length (k_rows k), List.length (k_tags k))) (fst (decode_chunked 300 (fun _ => 50) fixed ex_otlp))
+  = [(1, 9); (1, 4); (0, 0)]%nat /\
+  snd (decode_chunked 300 (fun _ => 50) fixed ex_otlp) = false.
+Proof. vm_compute. repeat split; discriminate. Qed.
+
+Example ex_chunked_zipkin :
+  decode fixed (ex_zipkin true) <> None /\
+  map (fun k => (List.length (k_rows k), List.length (k_tags k))) (fst (decode_chunked 300 (fun _ => 50) fixed (ex_zipkin true)))
+  = [(1, 5); (1, 3)]%nat.
+Proof. vm_compute. split; [discriminate|reflexivity]. Qed.
+
+(* small_request_one_response: sizes 926 <= 1 MiB *)
+Example ex_small_request :
+  option_map (gsize (fun _ => 50)) (decode fixed ex_otlp) = Some 926 /\
+  List.length (fst (decode_chunked flush_threshold (fun _ => 50) fixed ex_otlp)) = 1%nat.
+Proof. vm_compute. split; reflexivity. Qed.
+
+(* error_after_flush: the request of ex_zipkin followed by an element that is not an object: error, the first span was
+   flushed (and stays), the second was decoded but never sent *)
+Definition ex_zipkin_then_bad : input :=
+  match ex_zipkin false with InZipkin nd es => InZipkin nd (es ++ [JNull]) | i => i end.
+Example ex_error_after_flush :
+  decode fixed ex_zipkin_then_bad = None /\
+  map (fun k => (List.length (k_rows k), List.length (k_tags k))) (fst (decode_chunked 300 (fun _ => 50) fixed ex_zipkin_then_bad))
+  = [(1, 5)]%nat /\
+  snd (decode_chunked 300 (fun _ => 50) fixed ex_zipkin_then_bad) = true /\
+  List.length (fst (decode_stream fixed ex_zipkin_then_bad)) = 2%nat.
+Proof. vm_compute. repeat split. Qed.
